@@ -41,7 +41,8 @@ CLAIMED = {
     "C09": dict(
         technique="TLA+ contract (SheetDOMContract) + algorithm-layer machine mirroring CSSStyleSheet.insertRule (SheetDOM.tla, "
                   "deviation switch for the historical ordered-add placement) checked by TLC; TLC-generated transition tour and "
-                  "simulated walks replayed on CSSStyleSheet / @media / @page lists; TLC trace monitor",
+                  "simulated walks replayed on CSSStyleSheet / @media / @page lists; composition machine System.tla (DeclBlockContract and "
+                  "MediaListContract INSTANCEd into a product over one sheet's nested objects, frame + skeleton + parent clauses); TLC trace monitor",
         text="Bounded exhaustive over edit histories: every explored transition of the machine (10 rule kinds incl. merged margin boxes, "
              "rules as text and as objects, insert at every index, ordered add, delete by index / negative index / rule object, cssText/encoding "
              "assignment, nested list edits; every third behaviour with the sheet's own text re-assigned before the last action, behaviours that "
@@ -49,7 +50,10 @@ CLAIMED = {
              "declaration edits with foreign Property objects) is executed on the real DOM; after each step TLC checks "
              "OneCharsetFirst, Ordered, ChildrenAllowed, ParentMirror, DetachedHaveNoParent, ReparseKeepsEveryRule and that the "
              "step is allowed (accepted insert puts exactly that rule at that index, ordered add at some valid index, rejected "
-             "=> unchanged).",
+             "=> unchanged). Composition: the complete transition tour of System.tla (edits of two nested declaration blocks, an @media "
+             "rule's media list and two selector texts of ONE sheet; objects kept / re-fetched / Property objects handed in) - TLC "
+             "judges the target's own contract, that no sibling component changed, the rule skeleton, all parent links, that the "
+             "sheet text reparses to the same components and that a rejected edit leaves the sheet text unchanged.",
         design_ref="DESIGN.md section 5 C09",
         note="Trusted: TLC, adapter projection (identity checks of parent links are computed in Python and judged in TLC). "
              "Rule payloads are fixed templates; serializer runs with keepEmptyRules=True."),
@@ -101,8 +105,8 @@ CLAIMED = {
         technique="TLA+ decision table (EncutilsContract: ExpectedEncoding / ExpectedMismatch / Sniff written from the documented "
                   "rules) enumerated completely by TLC (Encutils.tla, table totality checked); each row executed against "
                   "encutils.getEncodingInfo / detectXMLEncoding / encodingByMediaType with stub responses; TLC trace monitor",
-        text="Exhaustive: all 2048 rows of media-type class x transport charset x XML declaration/BOM x meta x text/bytes, 48 sniffer "
-             "rows (string, positioned stream, bytes) and 8 media-type rows; TLC compares encoding, mismatch and the three per-source "
+        text="Exhaustive: all 2048 rows of media-type class x transport charset x XML declaration/BOM x meta x text/bytes, 96 sniffer "
+             "rows (string, positioned stream, bytes; includeDefault on/off) and 8 media-type rows; TLC compares encoding, mismatch and the three per-source "
              "encodings (lower case) with the table and checks the stream position is untouched.",
         design_ref="DESIGN.md section 5 C20",
         note="Trusted: TLC, the transcription of the documented rules into the TLA+ operators (independent of encutils' chain of ifs). "
